@@ -105,13 +105,29 @@ def c_init(k):
     j.n_full_rotations, j.previous_quadrant = 5, 3
     j.reset()
     k.prove("reset restores n = 0, previous_quadrant = 1", j.n_full_rotations == 0 and j.previous_quadrant == 1)
-    # assembler_callback sets the same initial tracking state before anything else
-    import ast, inspect, textwrap
+    # the first assembly of a freshly defined joint establishes the same tracking state:
+    # the real assembler_callback runs on a joint between two real rigid bodies whose
+    # initial configuration is arbitrary (symbolic in the proof run).  Re-assembly of a
+    # joint that already tracks an angle is the subject of C24, not of this clause.
+    from cardillo.discrete.rigid_body import RigidBody
 
-    src = textwrap.dedent(inspect.getsource(Revolute.assembler_callback))
-    body = ast.parse(src).body[0].body
-    first_two = [ast.unparse(s) for s in body[:2]]
-    k.prove("assembler_callback starts from the reset state", first_two == ["self.n_full_rotations = 0", "self.previous_quadrant = 1"], show=str(first_two))
+    bs = []
+    for i, tag in enumerate(("a", "b")):
+        b = RigidBody(1.0, np.eye(3))
+        q0 = k.reals(tag + "q0", 7, sample=lambda g: np.concatenate([g.normal(size=3), g.normal(size=4)]))
+        k.assume(q0[3:] @ q0[3:] > 0)
+        b.q0, b.u0, b.t0 = q0, np.zeros(6), 0.0
+        b.qDOF = np.arange(7) + 7 * i
+        b.uDOF = np.arange(6) + 6 * i
+        bs.append(b)
+    for axis in (0, 1, 2):
+        jf = Revolute(bs[0], bs[1], axis=axis, angle0=k.real("angle0"))
+        k.prove(f"a freshly defined joint carries no tracking state before assembly or has the reset state [axis={axis}]", (not hasattr(jf, "n_full_rotations") and not hasattr(jf, "previous_quadrant")) or (jf.n_full_rotations == 0 and jf.previous_quadrant == 1))
+        jf.assembler_callback()
+        k.prove(f"first assembler_callback establishes n = 0, previous_quadrant = 1 [axis={axis}]", jf.n_full_rotations == 0 and jf.previous_quadrant == 1, show=str((jf.n_full_rotations, jf.previous_quadrant)))
+        jf.n_full_rotations, jf.previous_quadrant = -2, 4
+        jf.reset()
+        k.prove(f"reset after assembly restores the state of the first assembly [axis={axis}]", jf.n_full_rotations == 0 and jf.previous_quadrant == 1)
     k.prove_le("Inv(0) holds for the reset state", 0, 0)
 
 
